@@ -1279,14 +1279,29 @@ def part_writers(ctx, pq, rng, quick):
         ctx.case(case)
         ctx.count("part.threads", spec["nthreads"])
         if res["trace"] is not None:
-            inter = conc.Interner()
-            traces = [[inter.snap(fp) for _, fp in ch] for ch in res["trace"]]
-            out = pq.call("conc_trace_check", traces)
-            nchanges = sum(len(t) - 1 for t in traces)
+            # premise of C20_footprint_confluence for writer threads: the shared schema / metadata object is Frozen (no write at
+            # all); module-, class-, default-argument- and function-level state of the package (regenerated inventory) is Frozen
+            # or Idem (only idempotent publications, at sites of non-refuted patterns); everything else a writer touches is its own
+            inventory()
+            evs = []
+            for ch in res["trace"]:
+                evs += conc.trace_events(ch, INV["idx"] or {})
+            on_shared = [e for e in evs if not e[0].startswith("/@module/")]
+            on_module = [e for e in evs if e[0].startswith("/@module/")]
             ctx.obligation("ownership premise [part writers, round %d]: make_part_file performs no write on the shared schema/metadata" % r,
-                           nchanges == 0 and bool(out[0]),
+                           not on_shared,
                            "shared file metadata changed during make_part_file: %s" % json.dumps(
-                               [conc.classify_trace(ch) for ch in res["trace"] if len(ch) > 1][:1])[:600])
+                               [[e[0], e[1], e[2], e[3], (e[4] or {}).get("line") if isinstance(e[4], dict) else None] for e in on_shared[:4]])[:600])
+            keys, vals = {}, {}
+            flat = [[keys.setdefault(k_, len(keys)), [] if o_ is None else [vals.setdefault(o_, len(vals))],
+                     [] if n_ is None else [vals.setdefault(n_, len(vals))], conc.PATTERN_CODE[p_]] for k_, o_, n_, p_, st in on_module]
+            out = pq.call("conc_footprint_check", flat) if flat else [1, []]
+            bad_ev = on_module[int(out[1][0][0])] if (out and out[1]) else None
+            ctx.obligation("ownership premise [part writers, round %d]: module-/class-/default-level state is frozen or written idempotently "
+                           "(extracted footprint_ok, %d events)" % (r, len(flat)), bool(out and out[0]),
+                           "" if bad_ev is None else "location %s: %r -> %r at %s (pattern %s)" % (
+                               bad_ev[0], bad_ev[1], bad_ev[2],
+                               ("%s:%s" % (bad_ev[4]["file"], bad_ev[4]["line"])) if bad_ev[4] else "?", bad_ev[3]))
         if res["bad"]:
             ctx.fail({"component": "part-writer", "op": "part", "symptom": res["bad"][0][1], "mode": res["bad"][0][0]},
                      dict(case, bad=res["bad"][:3]), "part files written from threads differ from the sequential ones: %r" % (res["bad"][:3],))
